@@ -46,6 +46,10 @@ func c10vars(c *h.Ctx, idx int, staged bool, assign string, r *h.Rand) {
 				if lv >= 2 && r.Chance(15) {
 					val = "" // a task or a stage that defines the name as empty still defines it
 				}
+				if lv == 1 && r.Chance(35) {
+					// a --set value that itself contains the separator: NAME ends at the first "="
+					val += []string{"=1", "=a=b", "=", "==x", " = y"}[r.Intn(5)]
+				}
 			}
 			defs[lv][name] = val
 			want[name], wantLevel[name] = val, varLevels[lv]
